@@ -308,7 +308,7 @@ def run(ctx):
         ctx.sample(p)
     for i in range(0, len(progs), 1500):
         explore(ctx, progs[i:i + 1500])
-    progs = [S.gen_contention(rng) for _ in range(n_cont)]
+    progs = [S.gen_contention(rng) for _ in range(n_cont)] + [S.gen_bound(rng, "c10") for _ in range(n_cont // 8)]
     ctx.sample(progs[0])
     explore(ctx, progs, label="contention: ")
     progs = [S.gen_chain(rng) for _ in range(n_chain)] + [S.gen_inflight(rng) for _ in range(n_chain // 7)]
